@@ -144,6 +144,28 @@ func init() {
 		f, err := strconv.ParseFloat(e.needStr(a[0], "strconv.ParseFloat"), int(e.needInt(a[1], "bitSize")))
 		return Tuple{f, e.nativeErr(err)}
 	})
+	fmtInt := func(e *Exec, v Value, k types.BasicKind, base int64) Value {
+		switch x := v.(type) {
+		case int64:
+			if isUnsignedKind(k) {
+				return mkStr(strconv.FormatUint(uint64(x), int(base)))
+			}
+			return mkStr(strconv.FormatInt(x, int(base)))
+		case Sym:
+			if base != 10 {
+				unsupported("symbolic integer formatted in base %d", base)
+			}
+			return e.formatSymInt(x.t, k)
+		}
+		panic("fmtInt")
+	}
+	N("strconv.Itoa", func(e *Exec, _ *frame, a []Value) Value { return fmtInt(e, a[0], types.Int, 10) })
+	N("strconv.FormatInt", func(e *Exec, _ *frame, a []Value) Value {
+		return fmtInt(e, a[0], types.Int64, e.needInt(a[1], "base"))
+	})
+	N("strconv.FormatUint", func(e *Exec, _ *frame, a []Value) Value {
+		return fmtInt(e, a[0], types.Uint64, e.needInt(a[1], "base"))
+	})
 	N("strconv.Quote", func(e *Exec, _ *frame, a []Value) Value {
 		return mkStr(strconv.Quote(e.needStr(a[0], "strconv.Quote")))
 	})
